@@ -45,7 +45,7 @@ type JobSpec struct {
 	MaxViol     int                       `json:"max_viol"`
 	Preempt     map[string]int            `json:"preempt"` // tier -> preemption bound (0 = unbounded)
 	TestTimeout int                       `json:"test_timeout_s"`
-	BudgetS     map[string]int            `json:"budget_s"` // tier -> wall-clock budget; exceeding it is inconclusive
+	BudgetS     map[string]int            `json:"budget_s"`    // tier -> wall-clock budget; exceeding it is inconclusive
 	OnlyLabels  []string                  `json:"only_labels"` // assert labels (prefixes) that belong to this property; others are another check's
 	Kinds       []string                  `json:"kinds"`       // violation kinds that belong to this property (default: all)
 }
@@ -242,7 +242,7 @@ func runJob(spec *JobSpec, tier string, extraOverlay map[string][]byte, concrete
 			}
 		}
 	}
-	params := map[string]int{}
+	params := map[string]int{"__tier": map[string]int{"quick": 0, "thorough": 1}[tier]}
 	for k, v := range spec.Params["all"] {
 		params[k] = v
 	}
@@ -486,6 +486,7 @@ func newMachine(ld *loaded, spec *JobSpec, sol *Solver, prefix []int, params map
 	if m.loopBound == 0 {
 		m.loopBound = 5_000_000
 	}
+	m.preemptBound = spec.Preempt[tierOf(params)]
 	m.schedBound = spec.SchedBound
 	if m.schedBound == 0 {
 		m.schedBound = 2000
@@ -564,4 +565,11 @@ func (s *JobSpec) owns(v *Violation) bool {
 		return false
 	}
 	return true
+}
+
+func tierOf(params map[string]int) string {
+	if params["__tier"] == 1 {
+		return "thorough"
+	}
+	return "quick"
 }
